@@ -235,6 +235,9 @@ func c06ops(r *rand.Rand, n int, tag string) []c06op {
 }
 
 func runC06proc(c *runCtx) {
+	if c.shard == c.nshards-1 {
+		runRedeliver(c, true)
+	}
 	rounds := 16
 	if c.tier == "thorough" {
 		rounds = 320
@@ -446,6 +449,29 @@ func holdReadLock(path string, d time.Duration) <-chan bool {
 	go func() {
 		time.Sleep(d)
 		_ = tx.Rollback()
+		db.Close()
+		done <- true
+	}()
+	return done
+}
+
+// holdExclusive: a second connection takes the database file's exclusive lock for d (no other connection can read).
+func holdExclusive(path string, d time.Duration) <-chan bool {
+	done := make(chan bool, 1)
+	db, err := sql.Open("sqlite3", "file:"+path+"?_busy_timeout=3000")
+	if err != nil {
+		done <- false
+		return done
+	}
+	db.SetMaxOpenConns(1)
+	if _, err := db.Exec("BEGIN EXCLUSIVE"); err != nil {
+		db.Close()
+		done <- false
+		return done
+	}
+	go func() {
+		time.Sleep(d)
+		_, _ = db.Exec("ROLLBACK")
 		db.Close()
 		done <- true
 	}()
